@@ -3,11 +3,12 @@
 (* <= N that is a live prefix completable within N, extended by any one symbol, and, *)
 (* once the grammar is left, by up to T more symbols of DeadAlpha.  Both automata    *)
 (* are stepped side by side; Conform is checked in every state (MC run) and every    *)
-(* state is printed as one case (Gen run).                                           *)
+(* state is printed as one case (Gen run).  Filler (bytes that stay inside the        *)
+(* whitespace / chunk-ext phases) is bounded by F per string, size digits by ND per line. *)
 EXTENDS Chunked, Json
-CONSTANTS N, T
-VARIABLES s, n, p, m, age
-evars == <<s, n, p, m, age>>
+CONSTANTS N, T, F, ND
+VARIABLES s, n, p, m, age, fill
+evars == <<s, n, p, m, age, fill>>
 
 \* one character per class: 0 1 2 a A hex digits (values 0 1 2 10 10), ; _ (SP/HTAB) r (CR) n (LF)
 \* x (other token byte) y (other non-token byte)
@@ -18,11 +19,14 @@ Alpha == { [ch |-> "0", c |-> "H", v |-> 0], [ch |-> "1", c |-> "H", v |-> 1], [
            [ch |-> "x", c |-> "TOK", v |-> 0], [ch |-> "y", c |-> "OTH", v |-> 0] }
 DeadAlpha == {a \in Alpha : a.ch \in {"1", "r", "n"}}
 
-EInit == s = "" /\ n = 0 /\ p = PInit /\ m = MInit /\ age = 0
+FillPh == {"SZW", "EXT0", "EXT1", "EXT2", "EXTV", "XCR", "SZCR"}
+EInit == s = "" /\ n = 0 /\ p = PInit /\ m = MInit /\ age = 0 /\ fill = 0
 
 Ext(a) == /\ s' = s \o a.ch /\ n' = n + 1
           /\ p' = PStep1(p, a.c, a.v) /\ m' = MStep1(m, a.c, a.v)
           /\ age' = IF p.ph = "DEAD" THEN age + 1 ELSE 0
+          /\ fill' = IF p.ph \in FillPh /\ p'.ph \in FillPh THEN fill + 1 ELSE fill
+          /\ fill' <= F /\ p'.nd <= ND
 
 ENext == /\ n < N
          /\ \/ PLive(p) /\ n + PMinRest(p) <= N /\ \E a \in Alpha : Ext(a)
